@@ -439,7 +439,7 @@ def main():
              if l.startswith('fixed:')]
     man = {
         'version': 1,
-        'setup_cmd': 'cd lean && lake build',
+        'setup_cmd': 'cd lean && lake build driver Emg3dVerif.All',
         'hooks': {
             'guard': 'EMG3D_VERIF',
             'enable': 'none needed: the harness installs its recorders by attribute replacement on '
